@@ -168,6 +168,9 @@ func sstFlipCases(c *corr.Ctx, root string) error {
 		builtTerm := corr.List(bt)
 		c.CountN("sst_file_bytes", len(orig))
 		for bit := 0; bit < len(orig)*8; bit++ {
+			// a new inode for every image: a table object of the previous image may still be mapped by a
+			// read-ahead task that outlives its iterator (SST files are never rewritten in place by the store)
+			_ = os.Remove(path)
 			if err := os.WriteFile(path, flip(orig, bit), 0o644); err != nil {
 				return err
 			}
